@@ -28,7 +28,8 @@ MODELLED = ["libsodium crypto_sign_verify_detached as a parameter `rawverify raw
             "keep lookup, missing -> rejected) are modelled (MemoGram.decode_key/decode_sgn/mverify); contract used by "
             "the totality theorems: rawverify returns True or raises MemoerError",
             "bytes.decode() as a strict UTF-8 validity predicate; memo text compared as UTF-8 bytes",
-            "the four rx dicts as one insertion-ordered entry list; sources as N",
+            "the four rx dicts as one insertion-ordered entry list; sources as N (the harness uses str paths, (host, port) "
+            "tuples and the real UDP Peer.receive over a scripted socket)",
             "Memoer.receive via the .echos queue (echoic)"]
 
 MEMOS = ["a", "Hello World! Hello World! 0123", "The quick brown fox jumps over the lazy dog. " * 2, "héllo wörld €\U0001f600 中文", "x" * 70]
@@ -178,6 +179,21 @@ def _beyond(code, curt, vid, n, rng=None):
     return dg, g[missing]
 
 
+def _undecodable(code, curt, vid, n):
+    """a COMPLETE single-gram memo every gram of which pick accepts but whose fused body is not valid UTF-8
+    (signed codes: authentically re-signed by the sender's own key)"""
+    import pysodium  # noqa
+    g = _grams("xy", code, curt, vid, n, 9)[0]
+    parts, az = _parts(code, curt, True)
+    hz = parts[-1][2]
+    ser = g[:hz] + b"\xff\xfe\xfd"
+    if not az:
+        return ser
+    keep, _ = mc.keep_and_vids()
+    tx = mc.memoer_class()(code=code, curt=curt, keep=keep, vid=vid)
+    return ser + bytes(tx.sign(vid, ser))
+
+
 def _case(authic, dgrams, svc="all", kind="valid", keep="full"):
     """dgrams: list of (bytes, src).  svc: 'all' after every datagram | 'end' | 'once' | 'split'."""
     ops = []
@@ -259,6 +275,19 @@ def directed():
                 out.append(_case(True, [(m, 1), (gp[1], 1)], "all", "mut:" + lab))
             for lab, m in _pad_mutations(gp[1], "bAAC", curt, False):
                 out.append(_case(True, [(gp[0], 1), (m, 1)], "all", "mut:" + lab))
+    # complete memos whose fused body is not valid UTF-8 (dropped by the fuse-error path), with every kind of source
+    # address the transports record (str path, (host, port) tuple, and through the real UDP PeerMemoer), followed by a
+    # valid memo that must still be delivered; the dropped memo must leave no state
+    for code, curt, vid in cfgs:
+        n += 1
+        bad = _undecodable(code, curt, vid, n)
+        good = _grams(MEMOS[1], code, curt, vid, n + 500, 40)
+        for src in ("str", "tuple", "udp"):
+            for svc in ("all", "end"):
+                c = _case(code in mc.SIGNED, [(bad, 1)] + [(x, 2) for x in good], svc, "mut:undecodable complete memo")
+                c.update({"src": src, "expect": [MEMOS[1].encode().hex()], "clean": True})
+                c["ops"] += [["all"], ["all"]]
+                out.append(c)
     # gram numbers beyond the count while a middle gram is missing and the last one is present: must stay incomplete
     # without raising on any later pass, and complete once the missing gram arrives
     for code, curt, vid in cfgs:
@@ -341,6 +370,12 @@ def generate(rng, tier):
         out.append(_case(authic, dg, svc, kind, keep=rcv))
         if rng.random() < 0.4:
             out[-1]["rxvid"] = rng.randrange(3)        # the receiver has a signer id of its own
+        r2 = rng.random()
+        if r2 < 0.5:
+            out[-1]["src"] = "tuple" if r2 < 0.3 else "udp"
+        if rng.random() < 0.05 and (snd, rcv) == ("full", "full"):
+            out[-1]["ops"] = [["dgram", _undecodable(code, curt, vid, 8000 + i).hex(), 3], [rng.choice(["all", "grams", "once"])]] + out[-1]["ops"]
+            out[-1]["kind"] = "mut:undecodable complete memo," + out[-1]["kind"]
         if rng.random() < 0.3:
             out[-1]["own"] = True                      # application-owned (empty) containers and keep handed to the constructor
     return out
@@ -349,9 +384,9 @@ def generate(rng, tier):
 # --------------------------------------------------------------------------- implementation / oracle
 
 def run_impl(case):
-    m = mc.new_receiver(case["authic"], case.get("keep", "full"), own=case.get("own", False),
-                        **({"vid": case["rxvid"]} if "rxvid" in case else {}))
-    excs = mc.run_rx_ops(m, case["ops"])
+    m = mc.new_receiver(case["authic"], case.get("keep", "full"), rxclass=("udp" if case.get("src") == "udp" else None),
+                        own=case.get("own", False), **({"vid": case["rxvid"]} if "rxvid" in case else {}))
+    excs = mc.run_rx_ops(m, case["ops"], "tuple" if case.get("src") == "tuple" else "str")
     obs = mc.observe_rx(m)
     obs["excs"] = excs
     return obs
@@ -373,6 +408,11 @@ def oracle(case, obs):
         return f"containers handed to the constructor are not the ones the Memoer uses: {obs['not_adopted']}"
     if any(obs["excs"]):
         return f"servicing the receive side raised: {obs['excs']}"
+    for want in case.get("expect", []):
+        if not any(d[0] == want for d in obs["inbox"] + obs["rxms"]):
+            return f"memo {bytes.fromhex(want)!r} was not delivered although all its (valid) grams arrived"
+    if case.get("clean") and obs["rxgs"]:
+        return f"state of a dropped memo was not cleaned: {[e[0] for e in obs['rxgs']]}"
     if any(e[3] not in ("ok", "MemoErr") for e in obs["verify"]):  # noqa
         return f"Memoer.verify raised something other than MemoerError: {[e[3] for e in obs['verify'] if e[3] not in ('ok', 'MemoErr')]}"
     if case["authic"]:
